@@ -420,6 +420,117 @@ func c08VerifyBeforeWrite(c *Ctx, r *Result) {
 	parse := c.Func("parser", "Parse")
 	parseRT := c.Func("parser", "ParseWithRuntime")
 	node := c.NamedType("parser", "ASTNode")
+	// callee re-parses and compares two trees
+	verifies := func(callee *ssa.Function) bool {
+		if callee == nil || !c.modFuncSet[callee] {
+			return false
+		}
+		reparses := callee == parse || callee == parseRT
+		compares := false
+		rs := c.Reachable([]*ssa.Function{callee}, func(f *ssa.Function) bool { return c.PkgOf(f) != "cli/tool" && c.PkgOf(f) != "parser" })
+		for f := range rs.Set {
+			if f == parse || f == parseRT {
+				reparses = true
+			}
+			if f != callee && f.Signature.Params().Len() >= 2 && namedOf(f.Signature.Params().At(0).Type()) == node && namedOf(f.Signature.Params().At(1).Type()) == node {
+				compares = true
+			}
+			if f.Name() == "Equals" && f.Signature.Recv() != nil && namedOf(f.Signature.Recv().Type()) == node {
+				compares = true
+			}
+		}
+		return reparses && compares
+	}
+	// producers of verified text: functions (string-parameter j) returning (text, error) such that
+	// whenever the error is nil, the text was verified against the tree parsed from parameter j
+	producers := map[*ssa.Function]int{}
+	for _, h := range c.ModFuncs() {
+		if c.PkgOf(h) != "cli/tool" || h.Parent() != nil || h.Signature.Results().Len() != 2 ||
+			h.Signature.Results().At(0).Type().String() != "string" || h.Signature.Results().At(1).Type().String() != "error" {
+			continue
+		}
+		good, seen := true, false
+		srcParam := -1
+		ho := &PathOracle{}
+		ho.AtReturn = func(st *PState, ret *ssa.Return) {
+			if len(ret.Results) != 2 || st.Get(ret.Results[1], ho) == AvNonNil {
+				return
+			}
+			text := st.canon(ret.Results[0])
+			okHere := false
+			allInstrs(h, func(x ssa.Instruction) {
+				call, isCall := x.(*ssa.Call)
+				if !isCall || !verifies(call.Call.StaticCallee()) {
+					return
+				}
+				hasText := false
+				var tree ssa.Value
+				for _, a := range call.Call.Args {
+					if st.canon(a) == text {
+						hasText = true
+					}
+					if namedOf(a.Type()) == node {
+						tree = a
+					}
+				}
+				if !hasText || tree == nil {
+					return
+				}
+				// the verification's error is the returned error, or known nil here
+				var ev ssa.Value = call
+				if call.Call.StaticCallee().Signature.Results().Len() > 1 {
+					ev = errValueOf(call, call.Call.StaticCallee().Signature.Results().Len()-1)
+				}
+				if ev == nil || !(st.canon(ev) == st.canon(ret.Results[1]) || st.Get(ev, ho) == AvNil) {
+					return
+				}
+				// the tree is parsed from a string parameter of h
+				if ex, isE := st.canon(tree).(*ssa.Extract); isE && ex.Index == 0 {
+					if pc, isPC := ex.Tuple.(*ssa.Call); isPC && (pc.Call.StaticCallee() == parse || pc.Call.StaticCallee() == parseRT) && len(pc.Call.Args) >= 2 {
+						if prm, isPrm := st.canon(pc.Call.Args[1]).(*ssa.Parameter); isPrm {
+							for j, p := range h.Params {
+								if p == prm {
+									srcParam = j
+									okHere = true
+								}
+							}
+						}
+					}
+				}
+			})
+			if okHere {
+				seen = true
+			} else {
+				good = false
+			}
+		}
+		if ExplorePaths(h, ho) && good && seen && srcParam >= 0 {
+			producers[h] = srcParam
+		}
+	}
+	fromFileRead := func(st *PState, v ssa.Value) bool {
+		src := st.canon(v)
+		for i := 0; i < 6; i++ {
+			switch x := src.(type) {
+			case *ssa.Convert:
+				src = st.canon(x.X)
+				continue
+			case *ssa.ChangeType:
+				src = st.canon(x.X)
+				continue
+			}
+			break
+		}
+		if e2, ok := src.(*ssa.Extract); ok && e2.Index == 0 {
+			if rc, ok := e2.Tuple.(*ssa.Call); ok {
+				switch callName(rc) {
+				case "io/ioutil.ReadFile", "os.ReadFile", "io.ReadAll", "io/ioutil.ReadAll":
+					return true
+				}
+			}
+		}
+		return false
+	}
 	for _, fn := range c.ModFuncs() {
 		if c.PkgOf(fn) != "cli/tool" {
 			continue
@@ -437,7 +548,13 @@ func c08VerifyBeforeWrite(c *Ctx, r *Result) {
 		}
 		usesPP := false
 		for _, f := range withNested(root) {
-			if len(callSites(f, func(name string, _ ssa.CallInstruction) bool { return strings.HasSuffix(name, "parser.PrettyPrint") })) > 0 {
+			if len(callSites(f, func(name string, ci ssa.CallInstruction) bool {
+				if strings.HasSuffix(name, "parser.PrettyPrint") {
+					return true
+				}
+				_, isProd := producers[ci.Common().StaticCallee()]
+				return isProd
+			})) > 0 {
 				usesPP = true
 			}
 		}
@@ -464,6 +581,26 @@ func c08VerifyBeforeWrite(c *Ctx, r *Result) {
 				}
 				reached = true
 				ok := false
+				// the text is the result of a producer of verified text whose error is nil here
+				if ex, isE := st.canon(text).(*ssa.Extract); isE && ex.Index == 0 {
+					if hc, isCall := ex.Tuple.(*ssa.Call); isCall {
+						if j, isProd := producers[hc.Call.StaticCallee()]; isProd {
+							args := callArgs(hc.Common())
+							for _, ref := range *hc.Referrers() {
+								if e1, isE1 := ref.(*ssa.Extract); isE1 && e1.Index == 1 {
+									switch {
+									case st.Get(e1, o) != AvNil:
+										why = "the write is reached although the error of " + hc.Call.StaticCallee().Name() + "() is not known to be nil"
+									case j >= len(args) || !fromFileRead(st, args[j]):
+										why = "the text verified by " + hc.Call.StaticCallee().Name() + "() is compared with a tree that is not parsed from the content read from the file"
+									default:
+										ok = true
+									}
+								}
+							}
+						}
+					}
+				}
 				allInstrs(fn, func(x ssa.Instruction) {
 					call, isCall := x.(*ssa.Call)
 					if !isCall || !dominates(call, w) {
